@@ -206,6 +206,10 @@ def check_one(mtj, system, order=None):
     try:
         terms, trans = getattr(transitions, system)(t)
         seq = [str(x) for x in trans]
+        again = [str(x) for x in trans]
+        if again != seq or list(terms) != list(terms):
+            bad('one-shot-result', 'the returned transition sequence reads %r the first time and %r the second time' % (seq[:6], again[:6]),
+                '%s: the emitted sequence can only be read once (words and tags file written from the same result differ)' % system)
     except Exception as e:
         bad('exception', '%s: %s' % (type(e).__name__, e))
         return out
@@ -362,7 +366,7 @@ def run_chunk(chunk):
                 for system in systems:
                     if system == 'topdown' and not cont:
                         continue
-                    for order in (None, 'rev', 'export', 'tiger'):
+                    for order in (None, 'rev', 'export', 'tiger', 'written'):
                         vs = check_one(j, system, order)
                         res.evals += 1
                         if mt.n() >= 2 and (k > 0 or not cont or any(c == 1 for c in choice.values())):
